@@ -76,31 +76,26 @@ class BlockLinearOperator(LinearOperator):
             # It's too complicated to deal with tensor indices in this case - we'll use the super method
             return super()._getitem(row_index, col_index, *batch_indices)
 
-        # Now we know that row_index and col_index
-        num_blocks = self.num_blocks
-        num_rows, num_cols = self.matrix_shape
-        row_start, row_end, row_step = row_index.start or 0, row_index.stop or num_rows, row_index.step
-        col_start, col_end, col_step = col_index.start or 0, col_index.stop or num_cols, col_index.step
-
         # If we have a step, it's too complicated - go with the base case
-        if row_step is not None or col_step is not None:
+        if row_index.step is not None or col_index.step is not None:
             return super()._getitem(row_index, col_index, *batch_indices)
 
-        # Let's make sure that the slice dimensions perfectly correspond with the number of
-        # outputs per input that we have
-        # Otherwise - its too complicated. We'll go with the base case
-        if (row_start % num_blocks) or (col_start % num_blocks) or (row_end % num_blocks) or (col_end % num_blocks):
+        # Now we know that row_index and col_index are slices without a step: try the block-aligned shortcut
+        num_rows, num_cols = self.matrix_shape
+        row_start, row_end, _ = row_index.indices(num_rows)
+        col_start, col_end, _ = col_index.indices(num_cols)
+        res = self._getitem_block_aligned(row_start, row_end, col_start, col_end, batch_indices)
+        if res is None:
+            # Otherwise - its too complicated. We'll go with the base case
             return super()._getitem(row_index, col_index, *batch_indices)
+        return res
 
-        # Otherwise - let's divide the slices by the number of outputs per input
-        row_index = slice(row_start // num_blocks, row_end // num_blocks, None)
-        col_index = slice(col_start // num_blocks, col_end // num_blocks, None)
-
-        # Now we can try the super call!
-        new_base_linear_op = self.base_linear_op._getitem(row_index, col_index, *batch_indices)
-
-        # Now construct a kernel with those indices
-        return self.__class__(new_base_linear_op, block_dim=-3)
+    def _getitem_block_aligned(self, row_start: int, row_end: int, col_start: int, col_end: int, batch_indices):
+        """
+        Slicing rows row_start:row_end and columns col_start:col_end by slicing the base operator, if these ranges
+        are aligned with the block structure. Returns None if this is not possible.
+        """
+        return None
 
     def _matmul(
         self: Float[LinearOperator, "*batch M N"],
